@@ -13,12 +13,16 @@ import servercore_common as sc
 
 def body(run):
     sc.core_check(
-        run, "C35", run.pick("ServerCoreGen_session_q.cfg", "ServerCoreGen_session_t.cfg"),
+        run, "C35",
+        # quick: 1 probe, callers s2 / null / alias; thorough: 1 probe with all ghost callers + seeded 2-probe scripts
+        run.pick([("ServerCoreGen_session_q.cfg", None, None)],
+                 [("ServerCoreGen_session_t.cfg", None, None), ("ServerCoreGen_session_t2.cfg", 100, 6)]),
         mc_cfgs=[("ServerCore_mc.cfg", "contract: session, id and owner invariants on 2 sessions + null caller")],
         dev_cfgs=[("ServerCore_dev_nosession-Read.cfg", "deviation demo: Read answered without a session")],
         max_deaths=run.pick(6, 25))
     run.cov["rule"] = ("one script per (life-cycle stage of s2, caller in {s2, null, unknown, foreign}, protected service, "
-                       "target id); class = stage x caller x service x target; exhaustive with 1 (quick) / 2 (thorough) probes")
+                       "target id); class = stage x caller x service x target; exhaustive with 1 probe (quick: callers s2, null, alias; "
+                       "thorough: all five callers) + seeded 2-probe scripts in thorough")
     run.assumptions += [
         "session errors are BadSessionIdInvalid, BadSessionClosed, BadSessionNotActivated",
         "'no action' is checked on the subscription / monitored item tables and the node value (privileged snapshot)",
